@@ -669,7 +669,36 @@ fn runtime_program(rng: &mut Rng) -> String {
             _ => format!("(-{a})"),
         }
     }
-    match rng.below(10) {
+    match rng.below(12) {
+        10 | 11 => {
+            // a non-value definition that refers *forward* to several later function values
+            // (accepted by the definition-order check), some of them mutually recursive, with a
+            // result that still mentions them
+            let k = rng.range(2, 4);
+            let names: Vec<String> = (0..k).map(|i| format!("fn{i}")).collect();
+            let mut text = String::new();
+            let calls: Vec<String> = names.iter().map(|f| format!("{f} {}", rng.range(0, 6))).collect();
+            match rng.below(3) {
+                0 => text.push_str(&format!("first : int = {}\n", calls.join(" + "))),
+                1 => text.push_str(&format!("first : bool = {} < {}\n", calls[0], calls[1])),
+                _ => text.push_str(&format!("first = {}\n", calls.join(" * "))),
+            }
+            for (i, f) in names.iter().enumerate() {
+                let next = &names[(i + 1) % k];
+                if rng.chance(2, 3) {
+                    // ring of mutual recursion
+                    text.push_str(&format!("{f} : (int -> int) = n => if n == 0 then {i} else {next} (n - 1)\n"));
+                } else {
+                    text.push_str(&format!("{f} : (int -> int) = n => n + {i}\n"));
+                }
+            }
+            match rng.below(3) {
+                0 => text.push_str(&format!("(m : int) => if first == 0 then {} m else {} m\n", names[0], names[k - 1])),
+                1 => text.push_str("first\n"),
+                _ => text.push_str(&format!("(m : int) => {}\n", names.iter().map(|f| format!("{f} m")).collect::<Vec<_>>().join(" + "))),
+            }
+            text
+        }
         8 | 9 => {
             // values that are closures: partial applications, functions returned from functions,
             // captured definitions, big integers
@@ -798,7 +827,19 @@ fn holes_program(rng: &mut Rng) -> String {
 /// repeated identical diagnostics (de-duplication), and near-miss names (suggestions).
 fn many_errors_program(rng: &mut Rng) -> String {
     let n = rng.range(9, 40);
-    match rng.below(6) {
+    match rng.below(7) {
+        6 => {
+            // diagnostics that quote very long types (abbreviation / wrapping / spill-over logic
+            // only runs on those)
+            let params = rng.range(30, 160);
+            let binders: String = (0..params).map(|i| format!("(a{i} : int) => ")).collect();
+            let sum: Vec<String> = (0..params.min(12)).map(|i| format!("a{i}")).collect();
+            match rng.below(3) {
+                0 => format!("f = (x : bool) => x\nf ({binders}{})\n", sum.join(" + ")),
+                1 => format!("g : int = {binders}{}\ng\n", sum.join(" + ")),
+                _ => format!("h = {binders}{}\nk : bool = h\nj : int = h\nk\n", sum.join(" * ")),
+            }
+        }
         0 => {
             // many distinct unbound names
             let terms: Vec<String> = (0..n).map(|i| format!("missing{i}")).collect();
@@ -1008,6 +1049,35 @@ fn hole_argument_program(rng: &mut Rng) -> String {
     text
 }
 
+/// W9c: type-level computation: types indexed by integers and booleans, so that conversion has
+/// to normalise and unify arithmetic, comparisons and conditionals (closed ones compute, neutral
+/// ones are compared structurally).
+fn type_level_program(rng: &mut Rng) -> String {
+    let ops = ["+", "-", "*"];
+    let op = *rng.pick(&ops);
+    let a = rng.range(0, 9);
+    let b = rng.range(0, 9);
+    let cmp = *rng.pick(&["<", "<=", "==", ">", ">="]);
+    let templates: Vec<String> = vec![
+        // closed arithmetic in an index: must compute
+        format!("(vec : int -> type) =>\n(nil : vec 0) =>\n(cons : (n : int) -> vec n -> vec (n + 1)) =>\n  (v : vec ({a} {op} {b})) => cons ({a} {op} {b}) v\n"),
+        // neutral arithmetic: structural comparison of sums / products of variables
+        format!("(vec : int -> type) =>\n(f : (n : int) -> (m : int) -> vec (n {op} m) -> int) =>\n(n : int) => (m : int) => (v : vec (n {op} m)) => f n m v\n"),
+        format!("(vec : int -> type) =>\n(f : (n : int) -> (m : int) -> vec (n {op} m) -> int) =>\n(n : int) => (m : int) => (v : vec (m {op} n)) => f n m v\n"),
+        // conditionals and comparisons in types
+        format!("ty = (n : int) => if n {cmp} {a} then int else bool\n(x : ty {b}) => (y : ty ({b} + 1)) => x\n"),
+        format!("ty = (c : bool) => if c then int else (int -> int)\nf = (x : ty ({a} {cmp} {b})) => x\nf\n"),
+        format!("(p : bool -> type) =>\n(use : (c : bool) -> p c -> int) =>\n(n : int) => (w : p (n {cmp} {a})) => use (n {cmp} {a}) w\n"),
+        format!("(p : bool -> type) =>\n(use : (c : bool) -> p c -> int) =>\n(n : int) => (w : p (n {cmp} {a})) => use (n {cmp} {b}) w\n"),
+        format!("(vec : int -> type) =>\n(neg : (n : int) -> vec n -> vec (-n)) =>\n(k : int) => (v : vec (-k)) => neg (-k) v\n"),
+        format!("(vec : int -> type) =>\n(half : (n : int) -> vec (n / 2) -> int) =>\n(v : vec ({a} / 2)) => half {a} v\n"),
+        format!("(p : int -> type) =>\n(g : (a : int) -> p (if a {cmp} {b} then a else {a}) -> int) =>\n(z : int) => (w : p (if z {cmp} {b} then z else {a})) => g z w\n"),
+        format!("(vec : int -> type) =>\n(app : (n : int) -> (m : int) -> vec n -> vec m -> vec (n + m)) =>\n(x : vec {a}) => (y : vec {b}) => (r : vec ({a} + {b}) -> int) => r (app {a} {b} x y)\n"),
+        format!("(vec : int -> type) =>\n(app : (n : int) -> (m : int) -> vec n -> vec m -> vec (n + m)) =>\n(x : vec {a}) => (y : vec {b}) => (r : vec {} -> int) => r (app _ _ x y)\n", a + b + rng.below(2)),
+    ];
+    templates[rng.below(templates.len())].clone()
+}
+
 /// Generated case number `index` of the stream; `corpus` is W1.
 pub fn generate(rng: &mut Rng, corpus: &[String]) -> Case {
     // Swarm: the mix is itself drawn per case.
@@ -1050,7 +1120,11 @@ pub fn generate(rng: &mut Rng, corpus: &[String]) -> Case {
         69..=73 => Case { family: "W6-holes", source: holes_program(rng) },
         74..=79 => Case { family: "W8-runtime", source: runtime_program(rng) },
         80..=85 => {
-            let source = if rng.chance(1, 3) { hole_argument_program(rng) } else { dependent_program(rng) };
+            let source = match rng.below(6) {
+                0 | 1 => hole_argument_program(rng),
+                2 => type_level_program(rng),
+                _ => dependent_program(rng),
+            };
             Case { family: "W9-dependent", source }
         }
         86..=93 => Case { family: "W7-composite", source: composite(rng, corpus) },
